@@ -219,10 +219,24 @@ def cases(ctx):
         sysr = rng.randrange(3)
         u = resolver_universe(rng, sysr)
         out.append(["resolve", sysr, u[0], u[1], u[2]])
+    # the recorded witness of F-C04-6
+    out.append(["resolve", 0, [[b"p", [b"1.0.0", [], [[[[8, b"q"]], b"r", b"2"]]]], [b"r", [b"2.0.0", [], [[[[8, b"q"]], b"p", b"1"]]]]], b"p", b"1.0.0"])
     # deep nesting / long tokens
     out.append(["parsedep", b"a; " + b"(" * 20000 + b"os_name=='x'" + b")" * 20000])
     out.append(["pom", b"<project><properties>" + b"".join(b"<p%d>${p%d}</p%d>" % (i, i + 1, i) for i in range(3000)) + b"<p3000>${p0}</p3000></properties><version>${p0}</version></project>", b"", b""])
     out.append(["parse", 6, b"1" * 100000])
+    # component counts around the int16/uint16 boundaries (userNumCount is an int16)
+    for cnt in (32767, 32768, 40000, 65535, 65536):
+        long_v = b".".join([b"1"] * cnt)
+        for sysi in (6, 7):
+            out.append(["parse", sysi, long_v])
+            for op in ([b"~=", b"==", b">="] if sysi == 6 else [b"~>", b"=", b">="]):
+                out.append(["pconstraint", sysi, op + b" " + long_v])
+            out.append(["match", sysi, ([b"~=", b"~>"][sysi - 6]) + long_v, b"1.1"])
+        out.append(["parse", 3, long_v])
+        out.append(["pconstraint", 3, b"[" + long_v + b",)"])
+        out.append(["parse", 8, long_v])
+        out.append(["parse", 5, long_v])
     out.append(["pconstraint", 4, b"||".join([b"1.0.0"] * 5000)])
     out.append(["pconstraint", 4, b" ".join([b">=1.0.0"] * 5000)])
     return out
@@ -271,6 +285,10 @@ def run(ctx):
         ctx.nontriv(sx(c))
         if cls in ("panic", "hang", "crash"):
             what = {"panic": "panics", "hang": "does not return within the watchdog limit", "crash": "crashes the process (stack overflow or fatal error)"}[cls]
+            # F-C04-6 (open): npm.Resolve does not terminate on some alias cycles (p -> q=npm:r, r -> q=npm:p)
+            if cls == "hang" and c[0] == "resolve" and c[1] == 0 and any(t and t[0][0] == 8 for p in c[2] for ve in p[1:] for (t, _, _) in ve[2]):
+                ctx.known_hits["F-C04-6"] = ctx.known_hits.get("F-C04-6", 0) + 1
+                continue
             if (key, cls) not in seen or len(ctx.violations) < 30:
                 ctx.violation("%s %s" % (key, what), sx(c)[:4000], observed=cls, required="a value or an error")
             seen.add((key, cls))
